@@ -160,7 +160,7 @@ fault_h!(c13_fast_v1a1_at1, 1, 1, true, true, 1, 5);
 fault_h!(c13_fast_v1a1_at2, 1, 1, true, true, 2, 5);
 //@ prop=C13 tier=thorough cost=900 fns="Mp4Writer::finalize,finalize_fast_start,write_counted,io::Write::write_all" bound="fast start, 1 video + 1 audio sample; write call #3 fails hard / is Interrupted / accepts any number of bytes (all symbolic)" unwind=5 stubs="build_moov_box(recording stand-in)" timeout=3000
 fault_h!(c13_fast_v1a1_at3, 1, 1, true, true, 3, 5);
-//@ prop=C13 tier=quick cost=300 fns="Mp4Writer::finalize,finalize_fast_start,write_counted,io::Write::write_all" bound="fast start, 1 video + 1 audio sample; write call #4 fails hard / is Interrupted / accepts any number of bytes (all symbolic)" unwind=5 stubs="build_moov_box(recording stand-in)" timeout=1200
+//@ prop=C13 tier=thorough cost=300 fns="Mp4Writer::finalize,finalize_fast_start,write_counted,io::Write::write_all" bound="fast start, 1 video + 1 audio sample; write call #4 fails hard / is Interrupted / accepts any number of bytes (all symbolic)" unwind=5 stubs="build_moov_box(recording stand-in)" timeout=1200
 fault_h!(c13_fast_v1a1_at4, 1, 1, true, true, 4, 5);
 //@ prop=C13 tier=thorough cost=900 fns="Mp4Writer::finalize,finalize_fast_start,write_counted,io::Write::write_all" bound="fast start, 1 video + 1 audio sample; write call #5 fails hard / is Interrupted / accepts any number of bytes (all symbolic)" unwind=5 stubs="build_moov_box(recording stand-in)" timeout=3000
 fault_h!(c13_fast_v1a1_at5, 1, 1, true, true, 5, 5);
